@@ -72,6 +72,11 @@ func prots(thorough bool) []*prot {
 		{Name: "internal", Kind: "internal", Dir: "/intern", Target: "/intern/y.txt", BScope: "/intern",
 			Conf:      "internal /intern",
 			Protected: func(rel string) bool { return under(rel, "/intern") }},
+		// the index page of the site root: the requests that reach it need not even have a path
+		// (its own index name, so that the other sites of the fixture keep a root without an index page)
+		{Name: "basicauth-root-index", Kind: "basicauth", Dir: "/", Target: "/home.html", BScope: "/home.html",
+			Conf:      fmt.Sprintf("index home.html\n\tbasicauth /home.html %s %s", user, pass),
+			Protected: func(rel string) bool { return rel == "/home.html" }},
 		{Name: "internal-file", Kind: "internal", Dir: "/idx", Target: "/idx/index.html", BScope: "/idx/index.html",
 			Conf:      "internal /idx/index.html",
 			Protected: func(rel string) bool { return rel == "/idx/index.html" }},
@@ -236,7 +241,7 @@ func buildFixture(c *lib.Ctx, label string) *c02.Fixture {
 	md := func(b []byte) []byte { return append([]byte("# heading\n\n"), b...) }
 	for _, f := range []string{"/pub.txt", "/page.html", "/noidx/c.txt",
 		"/secret/index.html", "/secret/x.txt", "/secret/deep/z.txt", "/secret/pub/open.txt", "/secret/app.php",
-		"/idx/index.html", "/idx/other.txt",
+		"/idx/index.html", "/idx/other.txt", "/home.html",
 		"/intern/y.txt", "/intern/index.html", "/intern/deep/w.txt", "/intern/app.php"} {
 		fx.AddFile(f, nil)
 	}
@@ -271,6 +276,10 @@ var badAuth = []string{"", "", "", "Basic !!!notbase64", "Bearer " + pass, basic
 func spellings(p string) []string {
 	if p == "/" {
 		return []string{"/", "//", "/.", "/./", "/%2e/", "/zz/..", "/zz/../", "/%2f", "/\\"}
+	}
+	p = path.Clean(p) // (a protected directory "/" yields bases like "//deep")
+	if p == "/" {
+		return spellings("/")
 	}
 	segs := strings.Split(strings.TrimPrefix(p, "/"), "/")
 	first := segs[0]
@@ -329,6 +338,14 @@ func genCases(c *lib.Ctx, fx *c02.Fixture, s *site) []rcase {
 			out = append(out, rcase{Method: "GET", Target: rel, AE: ae})
 		}
 	}
+	// absolute-form request-targets, with and without a path
+	for _, t := range []string{"ABS:", "ABS:/", "ABS:" + s.P.Dir + "/", "ABS:" + s.P.Target} {
+		out = append(out, rcase{Method: "GET", Target: t, Auth: rng.Pick(badAuth)}, rcase{Method: "GET", Target: t})
+	}
+	// the protected directory itself (its index page) in unclean spellings
+	for _, d := range []string{s.P.Dir + "//", "/" + s.P.Dir + "/", s.P.Dir + "/./", "/zz/.." + s.P.Dir + "/", strings.ToUpper(s.P.Dir) + "/", s.P.Dir + "/deep/../", s.P.Dir + "/%2e/", "/./" + s.P.Dir + "/"} {
+		out = append(out, rcase{Method: "GET", Target: d, Auth: rng.Pick(badAuth)}, rcase{Method: "GET", Target: d})
+	}
 	reps := c.Pick(2, 4)
 	for rep := 0; rep < reps; rep++ {
 		for _, b := range bases {
@@ -369,7 +386,7 @@ func sanityCases(fx *c02.Fixture, s *site) []rcase {
 		for _, rel := range rels {
 			out = append(out, rcase{Method: "GET", Target: rel, Auth: auth, Valid: true, Expect: "canonical"})
 		}
-		dirScoped := s.P.Name != "basicauth-file" && s.P.Name != "internal-file"
+		dirScoped := s.P.Name != "basicauth-file" && s.P.Name != "internal-file" && s.P.Name != "basicauth-root-index"
 		add := func(f, target, q, ae string) {
 			switch f {
 			case "browse", "browse-archive", "templates", "markdown", "fastcgi":
@@ -405,6 +422,10 @@ func sanityCases(fx *c02.Fixture, s *site) []rcase {
 
 func buildRaw(s *site, k rcase) []byte {
 	t := k.Target
+	if strings.HasPrefix(t, "ABS:") {
+		// absolute-form request-target; "ABS:" alone is the URI without any path
+		t = fmt.Sprintf("http://127.0.0.1:%d%s", s.Port, strings.TrimPrefix(t, "ABS:"))
+	}
 	if k.Query != "" {
 		t += "?" + k.Query
 	}
@@ -495,7 +516,11 @@ func (e *env) judge(s *site, k rcase, raw []byte, r *lib.Resp) {
 	if sc.Archive != "" {
 		c.Count("archives_decoded", 1)
 	}
-	clean, _ := c02.DecodeTargetPath(k.Target)
+	tp := k.Target
+	if strings.HasPrefix(tp, "ABS:") {
+		tp = "/" + strings.TrimPrefix(strings.TrimPrefix(tp, "ABS:"), "/")
+	}
+	clean, _ := c02.DecodeTargetPath(tp)
 	anyTok := false
 	for _, f := range sc.Found {
 		own, protd := e.owner(s, f.Token)
@@ -516,7 +541,7 @@ func (e *env) judge(s *site, k rcase, raw []byte, r *lib.Resp) {
 				// disk: the request matcher folds case, browse's hide list (file identity) does not
 				key += "-case-spelling"
 			}
-		case (s.P.Name == "basicauth-file" || s.P.Name == "internal-file") && (own == s.P.Target || strings.HasPrefix(own, s.P.Target+".")) && clean == s.P.Dir:
+		case (s.P.Name == "basicauth-file" || s.P.Name == "internal-file" || s.P.Name == "basicauth-root-index") && (own == s.P.Target || strings.HasPrefix(own, s.P.Target+".")) && clean == s.P.Dir:
 			key = "C03/index-of-file-scoped-rule"
 		}
 		w := &witness{Site: s.String(), SiteConfig: e.conf[s.N], Request: string(raw), Case: k, Status: r.Status, Header: hdr(r), Found: sc.Found,
@@ -608,7 +633,7 @@ func siteSets(c *lib.Ctx) [][2]interface{} {
 			if !compatible(fs) {
 				return
 			}
-			if p.Name == "basicauth-file" || p.Name == "internal-file" {
+			if p.Name == "basicauth-file" || p.Name == "internal-file" || p.Name == "basicauth-root-index" {
 				for _, f := range fs {
 					if f == "fastcgi" {
 						return
